@@ -32,6 +32,7 @@ pub enum DecodeMode {
 
 #[derive(Clone, Debug)]
 pub enum Spy {
+    Draw { len: usize, ok: bool, val: Vec<u8> },
     FooterEncode { ok: bool },
     ClaimsEncode { ok: bool },
     FooterDecode { bytes: Vec<u8>, ok: bool },
@@ -54,7 +55,7 @@ pub fn set_decode_mode(m: DecodeMode) {
 pub fn set_encode_fail(claims: bool, footer: bool) {
     ENCODE_FAIL.with(|d| *d.borrow_mut() = (claims, footer));
 }
-fn log(s: Spy) {
+pub fn log(s: Spy) {
     SPY_LOG.with(|l| l.borrow_mut().push(s));
 }
 
